@@ -64,6 +64,10 @@ def families(tier):
     add("F16-ordered-three-rows", [[Rule("a *", ordered=True, nkeys=3)],
                                    [Rule("b"), Rule("a ~", ordered=True, nkeys=3)],
                                    [Rule("a *", [Rule("c *", ordered=True, nkeys=3)])]])
+    # F17: heads that merely BEGIN with a vendor's negation word (node/no, undoer/undo, deleter/delete): they are
+    #      ordinary rules, their removal is "<negation word> <row>"
+    add("F17-negation-word-prefix-heads", [[Rule("node *"), Rule("undoer *"), Rule("deleter *")],
+                                           [Rule("a *", [Rule("node"), Rule("undoer *"), Rule("deleter")])]])
     if tier == "thorough":
         # F6: depth 3
         add("F6-depth3", [[Rule("a *", [Rule("c *", [Rule(shape(s, "e"), **f)])])]
